@@ -145,6 +145,20 @@ def flipLoop (s : St) : List Nat → R St
     let p ← getPt s.glyph i
     flipLoop { s with glyph := s.glyph.set i { p with on := ¬ p.on } } rest
 
+/-- `Ins_SCANCTRL` (`tt_metrics.rotated` / `stretched` false): `A = (FT_Int)( args[0] & 0xFF )`. -/
+def scanctrl (n ppem : Int) (sc : Bool) : Bool :=
+  let a := n % 256
+  if a = 255 then true
+  else if a = 0 then false
+  else
+    let sc := if n / 256 % 2 = 1 ∧ ppem ≤ a then true else sc
+    let sc := if n / 2048 % 2 = 1 ∧ ppem > a then false else sc
+    sc
+
+/-- `tt_size_run_prep`: `size->cvt[i] = FT_MulFix( face->cvt[i], size->ttmetrics.scale >> 6 )` with
+`face->cvt[i] = FT_GET_SHORT() * 64` (ttpload.c). -/
+def cvtSetup (units scale : Int) : Int := mulFix (units * 64) (scale / 64)
+
 /-- `Ins_INSTCTRL`: `K = (FT_ULong)args[1]; L = (FT_ULong)args[0]`; `exc->iniRange == tt_coderange_cvt`
 in the prep, `tt_coderange_glyph` in a glyph program. -/
 def instctrl (s : St) (sel v : Int) : St :=
@@ -434,14 +448,7 @@ def step (op imm : Int) (s : St) : R St := do
     else pure { s with glyph := (s.glyph.zipIdx).map fun (p, i) => if lo ≤ i ∧ i ≤ hi then { p with on := op = 0x81 } else p }
   else if op = 0x85 then do
     let (n, s) ← s.pop
-    let a := n % 256
-    if a = 255 then pure { s with scanControl := true }
-    else if a = 0 then pure { s with scanControl := false }
-    else
-      let sc := s.scanControl
-      let sc := if n / 256 % 2 = 1 ∧ s.ppem ≤ a then true else sc
-      let sc := if n / 2048 % 2 = 1 ∧ s.ppem > a then false else sc
-      pure { s with scanControl := sc }
+    pure { s with scanControl := scanctrl n s.ppem s.scanControl }
   else if op = 0x86 ∨ op = 0x87 then do
     let (i1, s) ← s.popIdx
     let (i2, s) ← s.popIdx
